@@ -27,7 +27,7 @@ def _pat(mul, add, start, n):
 LATENCY = 0.02                     # one-way delay of every byte (virtual seconds)
 
 
-def _add_latency(w, loop, lat: dict):
+def _add_latency(w, loop, lat: dict, cut: dict | None = None):
     """Bytes written on `w` reach the other reader `latency` later, in order; close / reset flush what is
     in flight first. (With zero delay a reply can overtake the coroutine that is about to wait for it —
     an artefact no real network shows.)"""
@@ -43,6 +43,21 @@ def _add_latency(w, loop, lat: dict):
         if not data:
             return
         data = bytes(data)
+        if cut is not None and cut.get('cut_at') is not None:
+            # the path dies after `cut_at` bytes of this direction: the receiver is told at once (`on_cut`), the
+            # sender keeps writing into the void until it is told too
+            if cut.get('dead'):
+                return
+            room = cut['cut_at'] - cut.get('passed', 0)
+            if len(data) > room:         # (a cut that lets everything through is no fault, as for `fail_after`)
+                data = data[:room]
+                cut['dead'] = True
+                if data:
+                    q.append(data)
+                    loop.call_later(lat['v'], pump)
+                loop.call_later(lat['v'], cut['on_cut'])
+                return
+            cut['passed'] = cut.get('passed', 0) + len(data)
         split = lat.get('split')
         if split and len(data) <= 12:
             # hand-shake bytes of a file connection (4-byte ticket, 8-byte offset): TCP may deliver them in pieces
@@ -148,7 +163,8 @@ async def _pair_main(loop, case: dict, tmp: str):
         def make_pair(remote_addr):
             a_reader, a_writer, b_reader, b_writer = real_make_pair(remote_addr)
             lat = {'v': LATENCY}
-            _add_latency(a_writer, loop, lat)
+            lat_a: dict = {}
+            _add_latency(a_writer, loop, lat, lat_a)
             _add_latency(b_writer, loop, lat)
             seen = {'init': False}
 
@@ -188,7 +204,26 @@ async def _pair_main(loop, case: dict, tmp: str):
                             a_writer.reset = half_visible_reset
                             idx = state['fconn']
                             state['fconn'] += 1
-                            if idx < len(cuts):
+                            if idx < len(cuts) and case.get('rst_first') == 'down':
+                                # the DOWNLOADER learns of the break first (after `cuts[idx]` file bytes); the
+                                # uploader goes on writing and is told `rst_delay` later
+                                lat_a['cut_at'] = len(buf) + 4 + cuts[idx]
+                                lat_a['passed'] = 0
+
+                                def on_cut():
+                                    if b_reader.exception() is None and not b_reader.at_eof():
+                                        b_reader.set_exception(ConnectionResetError('scripted reset (downloader first)'))
+                                    b_writer._closed = True
+
+                                    def near_end():
+                                        if a_reader.exception() is None and not a_reader.at_eof():
+                                            a_reader.set_exception(ConnectionResetError('scripted reset (delayed)'))
+                                        if not a_writer._closed:
+                                            a_writer._closed = True
+                                            net.closed_count += 1
+                                    loop.call_later(case.get('rst_delay', 0.0), near_end)
+                                lat_a['on_cut'] = on_cut
+                            elif idx < len(cuts):
                                 # PeerInit frame + 4 ticket bytes, then `cuts[idx]` file bytes get through
                                 a_writer.fail_after = len(buf) + 4 + cuts[idx]
 
@@ -479,6 +514,8 @@ def gen_cases(rng: random.Random, n: int) -> list:
                   # delivery orders of the control messages vs. the file connection
                   'lat_p': rng.choice([0.005, 0.02, 0.02, 0.5, 3.0]), 'lat_f': rng.choice([0.005, 0.02, 0.02, 0.5]),
                   'rst_delay': rng.choice([0.0, 0.0, 0.01, 1.0, 10.0, 30.0, 400.0]),
+                  # which end of the file connection learns of the break first (the other one `rst_delay` later)
+                  'rst_first': rng.choice(['up', 'up', 'down']),
                   # how ticket / offset arrive on the file connection: whole, byte-wise, 1+rest, rest+1
                   'hs_split': rng.choice([None, None, 'bytes', 'bytes', 'first', 'last']),
                   'hs_gap': rng.choice([0.0, 0.001, 0.05, 0.3])})
